@@ -136,7 +136,8 @@ def cond_src(c):
 
 META_KEYS = ['key_transform_with_load', 'key_transform_with_dump', 'marshal_date_time_as', 'skip_defaults',
              'skip_if', 'skip_defaults_if', 'raise_on_unknown_json_key', 'tag_key', 'auto_assign_tags',
-             'recursive_classes', 'tag', 'recursive']
+             'recursive_classes', 'tag', 'recursive',
+             'v1', 'v1_key_case', 'v1_on_unknown_key', 'v1_unsafe_parse_dataclass_in_union', 'v1_field_to_alias']
 
 
 def meta_items(meta):
